@@ -22,6 +22,9 @@ abbrev Inner := Sig → List Bytes → M (Option Reply)
 def runWith (special : Mode → Nat → String → List Arg → List CI → M (Except Err (Option Reply × List CI)))
     (mode : Mode) (c : Nat) (sig : Sig) (raw : List Bytes) (fromScript : Bool) : M (Option Reply) := do
   let conn ← getConn c
+  -- a subscribed connection is refused before the arguments are looked at
+  if conn.pubsub > 0 && !SigTable.pubsubAllowed.contains sig.name then
+    return some (.err (strBytes Msgs.BAD_COMMAND_IN_PUBSUB_MSG))
   let d := conn.db
   let db ← getDb d
   let gate := runGate sig fromScript (conn.pubsub > 0)
@@ -585,6 +588,9 @@ def scriptNames : List String := ["eval", "evalsha", "script"]
 /-- `_run_command` of a script command issued directly by the client -/
 def runScriptCmd (mode : Mode) (c : Nat) (sig : Sig) (raw : List Bytes) (fromScript : Bool) : M (Option Reply) := do
   let conn ← getConn c
+  -- a subscribed connection is refused before the arguments are looked at
+  if conn.pubsub > 0 && !SigTable.pubsubAllowed.contains sig.name then
+    return some (.err (strBytes Msgs.BAD_COMMAND_IN_PUBSUB_MSG))
   let db ← getDb conn.db
   let (db', res) := sig.apply raw db
   setDb conn.db db'
